@@ -95,4 +95,23 @@ CHECKS = {
                 'marker absent; early-exiting children must not be reported; decided on logical facts, never on wall-clock.',
         'note': _TB + '; only the process Exactly itself starts; the preprocessor (no timeout) is outside the quantifier',
     },
+    'C03': {
+        'category': 'exploration',
+        'technique': 'runtime monitoring: effect monitors (audit events, process-boundary records, marker files, probe records, tree snapshots) around cases with one planted defect, with a positive control',
+        'text': 'A valid effectful base case gets exactly one defective instruction (168 spellings of the ten defect classes + missing include) '
+                'at every phase and position (k<=2 exhaustively); the run must end 65 with the documented identifier and produce no effect '
+                'event at all; `exactly symbol FILE` on the same file must execute nothing; the same case without the defect (control) '
+                'must produce every marker, a Popen event and a sandbox, otherwise the case is inconclusive.',
+        'note': _TB + '; instructions lacking their mandatory last argument (which absorb the next line) are outside the quantifier',
+    },
+    'C06': {
+        'category': 'exploration',
+        'technique': 'runtime monitoring: generated expression trees rendered with hostile permitted layout through every host instruction; value and probe-written evaluation trace compared with the generating tree; independent recogniser for malformed input',
+        'text': 'All trees with <=3 leaves x truth assignments x {minimal, full} parentheses in five matcher hosts, all short transformer '
+                'chains x parenthesisations, plus seeded deeper trees with redundant parentheses, extra blanks and line breaks at permitted '
+                'places: the observed value (verdict / selected lines / output text) must be that of the generating tree under ! > && > || '
+                'and left-to-right |; probe primitives log which operands were evaluated (lazy left-to-right); token-level defects must be '
+                'rejected unless a recogniser of the documented grammar accepts them.',
+        'note': _TB + '; line breaks only inside parentheses; integer-matcher evaluation order unobservable',
+    },
 }
